@@ -196,6 +196,45 @@ def r3(ctx):
                           "returned changeset is %s" % term_str(payload)[:80])
 
 
+def r3b(ctx):
+    """the flag that exempts the recomputed block root from the local hash comparison is true
+    exactly when the node queue no longer holds that root"""
+    rule = "C04.R3"
+    fa = ctx.fn(VERIFY_UPGRADE)
+    if not need(ctx, P, rule, VERIFY_UPGRADE, fa):
+        return
+    oks = ok_returns(fa)
+    good = bool(oks)
+    shown = []
+    for b, s, t in oks:
+        v = strip(agg_field(t, "0"))
+        shown.append(term_str(v)[:60])
+        good = good and v[0] == "call" and v[2].endswith("::is_none") and path_of(strip(v[3][0])) == "~NodeQueue.extra"
+    ctx.check(P, rule, "verify_upgrade reports 'root consumed' only when the queue's extra node is gone", good, "Ok(q.extra.is_none())",
+              "verify_upgrade's result is %s, not `q.extra.is_none()`: the recomputed block root can be exempted from the comparison with the stored node although the signed roots do not cover it" % shown,
+              [loc(fa, b, s) for b, s, t in oks], key="C04|C04.R3|verify_upgrade|root consumed flag")
+    nq = sites(fa, NQ_NEW)
+    with_root = [s for s in nq if is_agg(fa.arg_origin(s, 1), "Some") and "block_root" in term_str(fa.arg_origin(s, 1))]
+    without = [s for s in nq if is_agg(fa.arg_origin(s, 1), "None")]
+    sw = [x for x in switch_edges_on(fa, lambda o: o == ("disc", ("param", "block_root")))]
+    good = len(nq) == 2 and len(with_root) == 1 and len(without) == 1 and bool(sw) and fa.dominates(sw[0][2].get(1, -1), with_root[0]) and all(strip(fa.arg_origin(s, 0)) == ("field", ("param", "upgrade"), "nodes") for s in nq)
+    ctx.check(P, rule, "the queue is seeded with the block root exactly when there is one", good, "NodeQueue::new(upgrade.nodes, Some(block_root)) | NodeQueue::new(upgrade.nodes, None)",
+              "NodeQueue construction in verify_upgrade differs: %s" % [[term_str(fa.arg_origin(s, i))[:40] for i in range(2)] for s in nq])
+    fs = ctx.fn(NQ_SHIFT)
+    if need(ctx, P, rule, NQ_SHIFT, fs):
+        # the extra node is handed out only for the index that was asked for; otherwise it is put back
+        eq = [x for x in bool_switches(fs, lambda o: o[0] == "bin" and o[1] in ("Eq", "Ne") and "extra" in term_str(o) and strip(o[3]) == ("param", "index") or (o[0] == "bin" and o[1] in ("Eq", "Ne") and strip(o[2]) == ("param", "index") and "extra" in term_str(o[3])))]
+        good = False
+        if eq:
+            b, o, tr, fl = eq[0]
+            match, differ = (tr, fl) if o[1] == "Eq" else (fl, tr)
+            rets = [(bb, t) for bb, _, t in ok_returns(fs) if "take" in term_str(t) and "extra" in term_str(t)]
+            puts = [(bb, si) for bb, si in assign_sites(fs, "self.extra")]
+            good = bool(rets) and all(fs.dominates(match, bb) for bb, _ in rets) and bool(puts) and all(fs.dominates(differ, bb) for bb, _ in puts)
+        ctx.check(P, rule, "the extra node leaves the queue only for the index it has", good, "extra.index == index => return it, else put it back",
+                  "NodeQueue::shift hands out (or drops) the extra node without matching its index", key="C04|C04.R3|NodeQueue::shift|extra index match")
+
+
 def _all_ok_dominated(fa, okbb):
     oks = ok_returns(fa)
     return oks, [(b, s) for b, s, t in oks if not fa.dominates(okbb, b)]
@@ -338,7 +377,7 @@ def r6(ctx):
                 ctx.check(P, rule, "%s stores the computed hash" % nm, term_has_call(h, HASH_DATA if f is fb else HASH_PARENT) is not None, "hash from Hash::*", "%s stores hash %s" % (nm, term_str(h)[:80]))
 
 
-RULES = [r1, r2, r3, r4, r5, r6]
+RULES = [r1, r2, r3, r3b, r4, r5, r6]
 
 EXPLANATION = ("C04 (forged proofs never change a replica): decides the gate chain as dominance facts — fork and commitable gates and a ?-checked "
                "verify_proof dominate every storage/oplog/bitfield/tree/header/event effect of verify_and_apply_proof and the applied changeset is the verified one (R1); "
